@@ -430,6 +430,25 @@ pub fn run() -> i32 {
                 st.bump("small_order_forgeries_built", found);
             }
         }
+        // a signing pair assembled from parts whose public_key field is another key's: the object
+        // API signs with the secret key it is given, exactly as the classic function and libsodium do
+        if !ph {
+            let (other_pk, _) = sodium::sign_seed_keypair(&[0x5du8; 32]);
+            let r = guarded(AssertUnwindSafe(|| {
+                let kp: dryoc::sign::SigningKeyPair<StackByteArray<32>, StackByteArray<64>> = dryoc::sign::SigningKeyPair::from_slices(&other_pk, &sk).ok()?;
+                let s: SignedMessage<StackByteArray<64>, Vec<u8>> = kp.sign(m.clone()).ok()?;
+                Some(s.into_parts().0.as_slice().to_vec())
+            }));
+            let ok = match &r {
+                Ok(Some(s)) => s[..] == sig[..],
+                Ok(None) => true, // refusing the inconsistent pair is fine
+                Err(_) => true,
+            };
+            st.eval(&(si, li, "mismatched-pair-sign"), true, if ok { "sign==libsodium" } else { "sign-disagrees" });
+            if !ok {
+                st.fail(Fail { check: "C06.ed25519".into(), signature: "C06/sign/mismatched-pair".into(), what: format!("SigningKeyPair::from_slices(other public key, sk).sign(msg of {} bytes) differs from the libsodium / classic signature under sk", m.len()), case: json!({"kind": "wrong-length", "what": "note", "sig": hx(&sig), "pk": hx(&pk), "msg": hx(&m)}) });
+            }
+        }
         // signatures / public keys handed over in run-time-sized containers of the wrong length:
         // never accepted (refusal by Err or by panic is not fixed by the statement)
         if !ph {
